@@ -3,8 +3,8 @@
    by [exact] of a lemma of Proofs/SphExactP.v, each followed by Print
    Assumptions.  The model is Model/SphExact.v (exact: every entry is a pair
    (r, q) denoting r * sqrt q). *)
-From Coq Require Import List Arith Bool String QArith Qcanon.
-From GB Require Import Model.Shell Model.SphExact Proofs.SphExactP.
+From Coq Require Import List Arith Bool String ZArith QArith Qcanon.
+From GB Require Import Base.Field Gauss.Moment1D Model.Shell Model.SphExact Proofs.SphExactP.
 Import ListNotations.
 Local Open Scope nat_scope.
 
@@ -83,6 +83,15 @@ Theorem C10_documented_forms_accepted :
 Proof. exact (fun l neg sine m H1 H2 => parse_fmt l (neg, sine, m) (conj H1 H2)). Qed.
 Print Assumptions C10_documented_forms_accepted.
 
+(* the one-axis factor [g1] of the Gram matrix used by the orthonormality check is
+   the Gaussian moment m_n of Gauss/Moment1D.v (the functional the overlap
+   theorems of C01 are about) at v = 1, in any field; satisfiable: Qc, R *)
+Theorem C10_gram_is_gaussian_moment :
+  forall (F : Type) (K : Fops F), is_field K ->
+  forall n, mom K (f1 K) n = ofnat K (Z.to_nat (g1 n)).
+Proof. exact (fun F K Kf => gram1_is_moment K Kf). Qed.
+Print Assumptions C10_gram_is_gaussian_moment.
+
 Example C10_reject_c_minus_1 :
   generate_transformation 1 (default_comps 1) ["c-1"; "s1"; "c0"]%string SLeft = None.
 Proof. exact reject_c_minus_1. Qed.
@@ -113,3 +122,8 @@ Example C10_accept_orca_f :
               ["c0"; "c1"; "s1"; "c2"; "s2"; "-c3"; "-s3"]%string SLeft = Some M.
 Proof. exact accept_orca_f. Qed.
 Print Assumptions C10_accept_orca_f.
+
+Example C10_gram_is_gaussian_moment_Qc :
+  forall n, mom K0 (f1 K0) n = ofnat K0 (Z.to_nat (g1 n)).
+Proof. exact gram1_is_moment_Qc. Qed.
+Print Assumptions C10_gram_is_gaussian_moment_Qc.
